@@ -175,6 +175,7 @@ def check(ctx):
         dom = cfg.dominators()
         cn = next(nd for nd in cfg.nodes.values() if any(x is c for x in node_calls(nd)))
         guarded = False
+        own_stream = False
         from ..paths import implied_atoms
         for d in dom[cn.id]:
             dn = cfg.nodes[d]
@@ -202,6 +203,18 @@ def check(ctx):
             if facts.get("self._send_buffer") is False or facts.get("len(self._send_buffer) == 0") is True \
                     or facts.get("self._send_buffer == b''") is True:
                 guarded = True
+                if facts.get("self.send_data_stream_queued") is True:
+                    own_stream = True
+        if fi.name == "write" and guarded:
+            # the writer may only leave WRITE mode after it has taken a stream over itself: re-registering for "r" clears
+            # the selector's data slot, and an EVENT_WRITE that fires before any hand-over (a freshly connected client) would
+            # otherwise wipe a stream attached by the state-machine thread in the meantime
+            ctx.decide(own_stream, "R-DOM/downgrade-own-stream", fi.qual, fi.where(c),
+                       "write() leaves WRITE mode only after it queued a handed-over stream (send_data_stream_queued) and drained it",
+                       "write() drops EVENT_WRITE (and with it the selector's data slot) whenever the send buffer is empty, without "
+                       "requiring that it had taken a stream over (`send_data_stream_queued`): a WRITE event that fires before the first "
+                       "hand-over re-registers the socket with data=None and wipes a stream attached concurrently - the message is never "
+                       "written", key="own_stream")
         ctx.decide(guarded, "R-DOM/downgrade", fi.qual, fi.where(c), "downgrade to read-only is dominated by `nothing pending`",
                    f"{fi.qual.rsplit('.', 1)[-1]}() drops EVENT_WRITE and the attached stream (`{ast.unparse(c)}`) without testing that "
                    f"nothing is pending, while the sibling call site guards it with `not self._send_buffer`: a read event that lands "
